@@ -140,13 +140,12 @@ theorem parseReq_gat (verb : FVerb) (hv : verb = .gat ∨ verb = .gats) (e : Int
     · exact TokOK_of_validKey (hk t ht)
 
 /-! ## delete, incr/decr, touch, flush_all, version, quit -/
-theorem parseReq_delete (key : Bytes) (nr : Bool) (rest : Bytes) (hk : validKey key = true)
-    (hnr : key ≠ ofString "noreply" ∨ nr = true) :
+theorem parseReq_delete (key : Bytes) (nr : Bool) (rest : Bytes) (hk : validKey key = true) :
     parseReq (deleteCmd key nr ++ rest) = some (.delete key nr, rest) := by
   have : deleteCmd key nr ++ rest = joinSp (ofString "delete" :: [key]) ++ noreplySfx nr ++ CRLF ++ rest := by
     simp [deleteCmd, joinSp, SP]
   rw [this, parseReq_line _ _ _ _ (TokOK_lit (by simp [SP, CR]))]
-  · exact parseLine_delete key nr rest hk hnr
+  · exact parseLine_delete key nr rest hk
   · intro u hu
     simp at hu; subst hu
     exact TokOK_of_validKey hk
